@@ -15,7 +15,7 @@ RULE = ("one case = one instance (p, q, c, penalty|None) plus an encoding; the i
         "int, NumPy int32/int64 or float; keyword or positional call; the arguments must come back unmodified. Shapes 1..7 "
         "(thorough ..12, some ..25), 40% unequal lengths, plus a shape-extreme class (length-1 histograms, 1-2 bins against "
         "up to 20, one side all zero, ties / zeros / upper-triangular asymmetric distances, penalty 0 and penalty < max C); "
-        "masses 0..50 with many zeros, equal-mass (permuted / rebalanced) and unequal-mass; a near-bound class scaled so that "
+        "an isolated-bin class (a non-empty bin at distance max C from every non-empty bin of the other histogram, with explicit penalties 0 .. max C - 1); masses 0..50 with many zeros, equal-mass (permuted / rebalanced) and unequal-mass; a near-bound class scaled so that "
         "max(sum P,sum Q)*max C + |sum P - sum Q|*penalty lies in [0.5,1)*2^31 (huge masses or huge distances); ground "
         "distances: |i-j|, thresholded |i-j|, 2-D grid L1, shortest-path closure of a random graph (metrics), symmetric "
         "non-metric, arbitrary, constant, all-zero, 'many entries equal to max' (node removal and pre_flow_cost); penalty "
@@ -285,6 +285,34 @@ def generate(ctx):
         cases.append(_shape_extremes(rng, ctx.n(9, 20)))
     for _ in range(ctx.n(200, 2000)):
         cases.append(_near_bound(rng))
+    # isolated bins (distance max(C) to every non-empty bin of the other histogram: served through the threshold node
+    # only, pre_flow_cost) together with an explicit penalty below max(C), including 0 - all flow types, gd_metric on/off
+    iso = [{"p": [2, 0], "q": [0, 2], "c": [[0, 4], [4, 0]], "pen": 1, "metric": True, "kind": "isolated", "tiny": True},
+           {"p": [2, 0], "q": [0, 2], "c": [[0, 4], [4, 0]], "pen": 0, "metric": True, "kind": "isolated", "tiny": True}]
+    for _ in range(ctx.n(150, 1500)):
+        n = int(rng.randint(2, ctx.n(6, 9))); m = n if rng.rand() < 0.6 else int(rng.randint(2, ctx.n(6, 9)))
+        k = max(n, m)
+        mx = int(rng.randint(2, 9))
+        met = rng.rand() < 0.5
+        if met:   # thresholded line metric: far bins sit at the threshold = max
+            D = np.minimum(np.abs(np.subtract.outer(np.arange(k), np.arange(k))), mx)
+        else:
+            D = rng.randint(0, mx + 1, (k, k)); D.flat[int(rng.randint(k * k))] = mx
+        C = D[:n, :m].copy()
+        P = rng.randint(0, 6, n); Q = rng.randint(0, 6, m)
+        if met:   # mass only at the two ends: every non-empty pair is at distance >= threshold when k > mx
+            P[:] = 0; Q[:] = 0; P[0] = int(rng.randint(1, 6)); Q[m - 1] = int(rng.randint(1, 6))
+            if rng.rand() < 0.5 and m > 2:
+                Q[0] = int(rng.randint(0, 3))
+        else:     # make one source row (and sometimes a sink column) all-max against the non-empty bins
+            i = int(rng.randint(n)); C[i, :] = int(C.max()); P[i] = int(rng.randint(1, 6))
+            if rng.rand() < 0.5:
+                j = int(rng.randint(m)); C[:, j] = int(C.max()); Q[j] = int(rng.randint(1, 6))
+        mc = int(C.max())
+        pen = int(rng.choice([0, 0, 1, max(0, mc - 1), max(0, mc // 2)]))
+        metric = bool(met and _metric_ok(D))
+        iso.append({"p": [int(x) for x in P], "q": [int(x) for x in Q], "c": C.astype(int).tolist(), "pen": pen,
+                    "metric": metric, "kind": "isolated", "tiny": bool(n <= 3 and m <= 3 and max(list(P) + list(Q) + [0]) <= 4)})
     # length-1 histograms and 1x1 / 1xN / Nx1 cost matrices handed over as strided views in every dtype (the class in
     # which np1D_to_vector used to read out of bounds: finding F16, repaired in /repo)
     one = []
@@ -309,6 +337,7 @@ def generate(ctx):
         if rng.rand() < 0.7:
             _encode(rng, c)
     cases.extend(one)
+    cases.extend(iso)
     for c in cases:
         ctx.count("kind:" + c.get("kind", "?"))
         ctx.count("shape:%s" % ("equal" if len(c["p"]) == len(c["q"]) else "unequal"))
@@ -671,7 +700,7 @@ def shrink_candidates(case):
 
 MANIFEST = {
     "level_text": (
-        "Machine-checked proofs (Coq 8.16, 43 theorems, all closed under the global context). (a) The extracted certificate "
+        "Machine-checked proofs (Coq 8.16, 45 theorems, all closed under the global context). (a) The extracted certificate "
         "checker emd_cert_ok is sound for all sizes and inputs: acceptance of (P, Q, C, penalty, d, F, alpha, beta, gamma) "
         "implies that d is exactly the transportation optimum plus penalty*|sum P - sum Q| of the property text (also against "
         "fractional flows) and that F is a feasible integral flow whose cost reproduces d; the value is unique; zero padding "
@@ -688,14 +717,15 @@ MANIFEST = {
         "arcs, ghost node potentials (forward/backward entries of an arc carry opposite reduced costs) along the whole run, and "
         "- under a run-time flag that the model records and the correspondence evaluates for every case (never set) - that all "
         "residual arcs keep reduced cost >= 0 through every iteration, so that the final capacities satisfy complementary "
-        "slackness; fuel sufficiency; the book-keeping of transform_flow_to_regular. The pair addressing of augment is proved "
+        "slackness, and that the capacity flow is conserved (at the end all excesses are zero and outflow - inflow = supply at "
+        "every node); fuel sufficiency; the book-keeping of transform_flow_to_regular. The pair addressing of augment is proved "
         "wrong on graphs with anti-parallel arcs (kernel-evaluated non-terminating witness) and such graphs are proved "
         "unreachable through emd_hat_impl's construction except at the artificial node."),
     "level_note": (
         "Trusted: Coq kernel + vm_compute; extraction (ExtrOcamlBasic only) and the S-expression driver; the Python harness. "
-        "NOT proved (named in Props/C10.v): conservation of the capacity flow over the whole run and its equality with the "
-        "returned x lists (caps_flow_conserved, x_caps_consistent; the per-hop step is proved), hence min-cost optimality of the "
-        "line-level flow without a certificate; that the run never fails; the read_back / my_dist book-keeping through the node "
+        "NOT proved (named in Props/C10.v): the re-indexing of the capacity flow by arcs and its equality with the returned x "
+        "lists (caps_flow_indexing, x_caps_consistent), hence the instantiation of the min-cost certificate on the line-level "
+        "flow; that the run never fails; the read_back / my_dist book-keeping through the node "
         "renaming; that the artificial node is never used (the flag is never set: checked per case, 0 of ~150 000 runs). The "
         "end-to-end statement therefore still rests on the certificate computed inside the algorithm-level model and on the "
         "per-case certificate check of the implementation's output. int is modelled by Z; int32 overflow is excluded by "
